@@ -766,3 +766,85 @@ func (c *Ctx) OnlyGuards(key, fname string, target IM, allowed []*Guard, min int
 	}
 	c.ok(key, rule, desc, n)
 }
+
+// Row is one row of a decision table: when all guards in When are established
+// on a path, the rendered outcome must match Expect.
+type Row struct {
+	When   []*Guard
+	Expect string // regexp (pat syntax already applied by caller)
+	Name   string
+}
+
+func factsHold(facts []PathFact, when []*Guard) bool {
+	for _, g := range when {
+		ok := false
+		for _, f := range facts {
+			if f.Val == g.Val && g.rx.MatchString(f.Cond) {
+				ok = true
+				break
+			}
+		}
+		if !ok {
+			return false
+		}
+	}
+	return true
+}
+
+// PathTable (K2+K6, decision table): on every feasible path from entry to a
+// target the outcome rendered on that path (phis and local cells resolved)
+// matches the first row whose conditions hold on the path; a path matching no
+// row fails.
+func (c *Ctx) PathTable(key, fname string, target IM, render func(at ssa.Instruction, r PathRender, facts []PathFact) string, rows []Row, min int, desc, why string) {
+	rule := "K2+K6 decision table (path enumeration, phi/cell resolution)"
+	fn := c.F(fname)
+	if !c.need(key, rule, desc, fn, fname) {
+		return
+	}
+	var rx []*regexp.Regexp
+	for _, r := range rows {
+		rx = append(rx, regexp.MustCompile("^(?:"+r.Expect+")$"))
+	}
+	var bad string
+	used := map[int]bool{}
+	n, over := c.P.EnumPathsR(fn, target, 20000, func(facts []PathFact, trace []*ssa.BasicBlock, at ssa.Instruction, r PathRender) {
+		if bad != "" {
+			return
+		}
+		got := render(at, r, facts)
+		for i, row := range rows {
+			if !factsHold(facts, row.When) {
+				continue
+			}
+			used[i] = true
+			if !rx[i].MatchString(got) {
+				bad = fmt.Sprintf("on the path %s (row %q applies) the outcome at %s is %q, required %q", c.P.TraceString(trace), row.Name, c.where(at), got, row.Expect)
+			}
+			return
+		}
+		var fs []string
+		for _, f := range facts {
+			fs = append(fs, fmt.Sprintf("%s=%v", trunc(f.Cond, 120), f.Val))
+		}
+		bad = fmt.Sprintf("path %s to %s matches no row of the table; facts: %s; outcome %q", c.P.TraceString(trace), c.where(at), strings.Join(fs, " ; "), got)
+	})
+	if over {
+		c.undecided(key, rule, desc, "more than 20000 paths")
+		return
+	}
+	if bad != "" {
+		c.fail(key, rule, desc, why, bad, n)
+		return
+	}
+	for i, row := range rows {
+		if !used[i] {
+			c.fail(key, rule, desc, why, fmt.Sprintf("row %q of the decision table is matched by no feasible path (branch removed?)", row.Name), n)
+			return
+		}
+	}
+	if n < min {
+		c.fail(key, rule, desc, why, fmt.Sprintf("%d feasible path(s), expected >= %d", n, min), n)
+		return
+	}
+	c.ok(key, rule, desc, n)
+}
